@@ -250,6 +250,7 @@ def _opt_q(text, flags):
         v = float(text)
     except (TypeError, ValueError):
         flags["exact"] = False
+        flags["numeric"] = False        # a timing field that is blank or not a number: outside what C15-C17 speak about
         return NIL
     q = v * 4
     if q != int(q) or abs(q) > 10 ** 8:
@@ -355,4 +356,5 @@ def view_ro_xml(root):
                         "sd": num("StoryDuration"), "tt": num("TextTime"), "mt": num("MediaTime"),
                         "st": tim("StoryStarted"), "en": tim("StoryEnded"),
                         "body": body, "items": [item_view(i) for i in st.findall("item")]})
-    return {"edstart": NIL if edtext is None else _opt_t(edtext, flags), "exact": flags["exact"], "stories": stories}
+    return {"edstart": NIL if edtext is None else _opt_t(edtext, flags), "exact": flags["exact"],
+            "numeric": flags.get("numeric", True), "stories": stories}
